@@ -7,7 +7,7 @@ from ..impl_dtcwt import IMPL
 
 PROP = 'C03'
 MODULE = 'WaveletsVerif.Properties.C03'
-THEOREMS = ['WV.C03.colfilter1_eq_ref', 'WV.C03.interleave2_get', 'WV.C03.coldfilt1_raises_iff']
+THEOREMS = ['WV.C03.colfilter1_eq_ref', 'WV.C03.coldfilt1_eq_ref', 'WV.C03.interleave2_get', 'WV.C03.coldfilt1_raises_iff']
 OPS = ['colfilter', 'rowfilter', 'coldfilt', 'rowdfilt', 'q2c', 'fwd_j1', 'fwd_j2plus', 'DTCWTForward']
 
 
@@ -49,11 +49,38 @@ def oracle(ck, extended):
         rt.guard(ck, oracle_fwd, ck, bt, qt, bt, qt, J, x, 'integer filters')
 
 
+def spec_check(ck):
+    """Lean reference formulas (Spec/DtcwtRef.lean) <-> dtcwt.numpy.lowlevel, exact on integers"""
+    import dtcwt.numpy.lowlevel as Rf
+    rng = ck.rng
+    lines, exp = [], []
+    for it in range(80 if ck.tier == 'quick' else 800):
+        if it % 2 == 0:
+            L = rng.choice([1, 3, 5, 7, 9, 13, 19, 2, 4, 6]); r = rng.randint(1, 14)
+            h = gen.int_filter(rng, L, zero_ends=0.0); x = gen.int_tensor(rng, (r,))
+            lines.append(proto.to_line('Q', 'spec_colfilter', [], [h, x])); exp.append([Rf.colfilter(x.reshape(r, 1), h)[:, 0]])
+        else:
+            m = 2 * rng.randint(1, 9); r = 4 * rng.randint(1, 5); hp = rng.randint(0, 1)
+            while True:
+                ha = gen.int_filter(rng, m, zero_ends=0.0); hb = gen.int_filter(rng, m, zero_ends=0.0)
+                sgn = np.sum(ha * hb)
+                if (sgn > 0 and not hp) or (sgn < 0 and hp):      # the reference picks the tree order from this sign
+                    break
+            x = gen.int_tensor(rng, (r,))
+            lines.append(proto.to_line('Q', 'spec_coldfilt', [hp], [ha, hb, x])); exp.append([Rf.coldfilt(x.reshape(r, 1), ha, hb)[:, 0]])
+    outs = proto.run_driver(lines)
+    bad = [ln[:200] for ln, o, e in zip(lines, outs, exp) if o == 'raise' or not proto.equal_exact('Q', e[0], o[0])[0]]
+    ck.extra['spec_vs_reference'] = {'evaluations': len(lines), 'mismatches': len(bad)}
+    if bad:
+        raise RuntimeError('Lean reference formulas disagree with the numpy dtcwt package (machinery error, not a verdict): ' + bad[0])
+
+
 def run(ck):
     std_run(ck, PROP, MODULE, THEOREMS, OPS, 320, 3000, oracle,
             rule='correspondence (exact over Q(sqrt2)): colfilter/rowfilter, coldfilt/rowdfilt (both highpass flags, row counts incl. non-multiples of 4 which must raise), q2c, fwd_j1, fwd_j2plus, '
                  'DTCWTForward (all layouts, masks, odd and non-multiple-of-4 sizes) with random asymmetric integer filters; oracle: real DTCWTForward vs dtcwt.Transform2d.forward for the 20 named '
                  'filter pairs and for integer filters obeying the reference tree-order sign rule; distinct by (op, params, shapes) / (J, shape, filters)')
+    spec_check(ck)
 
 
 def replay(ck, path):
